@@ -20,8 +20,11 @@ from trlib import REPO, TranslateError  # noqa: E402
 
 GENERATORS = {}
 for _p in sorted(glob.glob(os.path.join(os.path.dirname(os.path.abspath(__file__)), 'gen_*.py'))):
-    _m = importlib.import_module(os.path.basename(_p)[:-3])
-    GENERATORS.update(_m.GENERATORS)
+    try:
+        _m = importlib.import_module(os.path.basename(_p)[:-3])
+        GENERATORS.update(_m.GENERATORS)
+    except Exception as _exc:  # noqa: a broken plug-in must not take the other generators down
+        print(f'TRANSLATE-PLUGIN-FAILED {os.path.basename(_p)}: {type(_exc).__name__}: {_exc}')
 
 
 def write_if_changed(path, text):
@@ -51,7 +54,7 @@ def main(argv):
         path = os.path.join(ns.out, name + '.v')
         try:
             text = GENERATORS[name](ns.repo)
-        except (TranslateError, SyntaxError, OSError, KeyError, AttributeError, IndexError, ValueError, TypeError) as exc:
+        except Exception as exc:  # noqa: fail closed on anything
             print(f'TRANSLATE-REFUSED {name}: {exc}')
             # fail closed: remove the stale file so nothing is proved about old source
             for ext in ('.v', '.vo', '.vok', '.vos', '.glob'):
